@@ -1660,6 +1660,9 @@ func cleanDataConditions(dcs *[]DataCondition) bool {
 			if ae.Flags != be.Flags {
 				return ae.Flags < be.Flags
 			}
+			if ae.ConverterName != be.ConverterName {
+				return ae.ConverterName < be.ConverterName
+			}
 			if ae.Regex != be.Regex {
 				return ae.Regex < be.Regex
 			}
@@ -1693,6 +1696,9 @@ outer:
 				continue outer
 			}
 			if ae.Flags != be.Flags {
+				continue outer
+			}
+			if ae.ConverterName != be.ConverterName {
 				continue outer
 			}
 			if ae.Regex != be.Regex {
